@@ -44,13 +44,14 @@ pub const DEF: PropDef = PropDef {
     id: "C17",
     rule: "Cases are batches of bit patterns of one integer width; each pattern p is used both as a natural n (to_int) and as the integer with \
 the same bits (to_nat). Exhaustive for 8, 16 and 32 bits in the optimised build (2^32 patterns; the debug-assertions build enumerates 8 and 16 \
-bits completely and 32 bits with stride 251); for 64-bit, 128-bit and pointer-size types: every pattern within 2^16 (quick: 2^12) of 0, MIN, MAX \
-and of every power of two, plus seeded random patterns. Oracle, written independently in wider arithmetic: to_nat(x) = 2x for x >= 0 and -2x-1 \
+bits completely and 32 bits with stride 251); for 64-bit, 128-bit and pointer-size types: every pattern within 2^16 (quick: 2^12) of 0, MIN, MAX, \
+MIN/2, MAX/2 and of every power of two of either sign, plus seeded random patterns. Oracle, written independently in wider arithmetic: to_nat(x) = 2x for x >= 0 and -2x-1 \
 otherwise; to_int(n) = n/2 for even n and -(n+1)/2 otherwise; to_int(to_nat(x)) == x; to_nat(to_int(n)) == n; to_nat(x) <= 2|x|. Non-trivial: \
 negative x / odd n, or within 2 of MIN / MAX; distinct = distinct batch hashes (elementary_checks counts the individual patterns).",
     assumptions: &["closed formulas evaluated in i128/u128 (for 128-bit types via the overflow-free rearrangements 2*(-(x+1))+1 and -(n/2)-1)"],
     run,
     replay,
+    from_bytes: None,
 };
 
 macro_rules! check_ty {
@@ -176,7 +177,12 @@ fn run(ctx: &Ctx, env: &Env) -> Stats {
             let mut centers: Vec<u128> = vec![0, mask, 1u128 << (b - 1)];
             for i in 1..b - 1 {
                 centers.push(1u128 << i);
+                // the integer -2^i (two's complement pattern)
+                centers.push((mask - (1u128 << i)).wrapping_add(1) & mask);
             }
+            // MIN/2, MAX/2 and their neighbours as integers; 3 * 2^(b-2) as a natural
+            centers.push((1u128 << (b - 1)) | (1u128 << (b - 2)));
+            centers.push((1u128 << (b - 2)) - 1);
             for c0 in centers {
                 let start = c0.wrapping_sub(near) & mask;
                 // the range wraps inside the type thanks to the cast in check_ty
